@@ -117,11 +117,43 @@ type Exec struct {
 	timeNow    *Term
 	initDone   map[*ssa.Package]bool
 	lastAfterFunc *Term
+	models     []*cachedModel
+	ModelHits  int
 }
 
 type mutexState struct {
 	locked bool
 	readers int
+}
+
+type cachedModel struct {
+	m    map[string]uint64
+	memo map[*Term]uint64
+}
+
+func (cm *cachedModel) holds(t *Term) bool { return Eval(t, cm.m, cm.memo) != 0 }
+
+// witness reports whether a cached model of the path condition satisfies t.
+func (x *Exec) witness(t *Term) bool {
+	for _, cm := range x.models {
+		if cm.holds(t) {
+			x.ModelHits++
+			return true
+		}
+	}
+	return false
+}
+
+func (x *Exec) addModel(m map[string]uint64) {
+	if m == nil {
+		return
+	}
+	cm := &cachedModel{m: m, memo: map[*Term]uint64{}}
+	// the model must satisfy the whole path condition (it was obtained for it)
+	x.models = append(x.models, cm)
+	if len(x.models) > 6 {
+		x.models = x.models[1:]
+	}
 }
 
 func (x *Exec) freshVar(prefix string, w int) *Term {
@@ -150,10 +182,28 @@ func (x *Exec) assertPC(t *Term) {
 	}
 	x.pcTerms = append(x.pcTerms, t)
 	x.solver.Assert(t)
+	// keep only cached models that still satisfy the path condition
+	k := 0
+	for _, cm := range x.models {
+		if cm.holds(t) {
+			x.models[k] = cm
+			k++
+		}
+	}
+	x.models = x.models[:k]
 }
 
 func (x *Exec) check(extra *Term, timeoutMs int, modelVars []*Term) (SatResult, map[string]uint64) {
-	r, m, err := x.solver.Check(extra, timeoutMs, modelVars)
+	// always ask for the complete model: it becomes a cached witness
+	all := x.tc.vars
+	r, m, err := x.solver.Check(extra, timeoutMs, all)
+	if err == nil && r == Sat {
+		// variables created later default to 0 in Eval; that is only sound for
+		// variables that do not occur in the path condition yet, which holds
+		// because every occurring variable is in tc.vars at this point.
+		x.addModel(m)
+	}
+	_ = modelVars
 	if err != nil {
 		x.res.Unknowns = append(x.res.Unknowns, err.Error())
 		if strings.Contains(err.Error(), "died") {
@@ -185,12 +235,25 @@ func (x *Exec) branch(cond *Term) bool {
 	}
 	x.pos++
 	tmo := x.eng.cfg.FeasTimeoutMs
-	rt, _ := x.check(cond, tmo, nil)
-	var rf SatResult
-	if rt == Unsat {
-		rf = Sat // PC is satisfiable by construction
-	} else {
-		rf, _ = x.check(x.tc.BNot(cond), tmo, nil)
+	ncond := x.tc.BNot(cond)
+	var rt, rf SatResult
+	wt, wf := x.witness(cond), x.witness(ncond)
+	switch {
+	case wt && wf:
+		rt, rf = Sat, Sat
+	case wt:
+		rt = Sat
+		rf, _ = x.check(ncond, tmo, nil)
+	case wf:
+		rf = Sat
+		rt, _ = x.check(cond, tmo, nil)
+	default:
+		rt, _ = x.check(cond, tmo, nil)
+		if rt == Unsat {
+			rf = Sat // PC is satisfiable by construction
+		} else {
+			rf, _ = x.check(ncond, tmo, nil)
+		}
 	}
 	tOK := rt != Unsat
 	fOK := rf != Unsat
